@@ -224,6 +224,11 @@ def gen_badpages(rng, bad, good, maxops):
     return ops
 
 
+# a corrupted size field may ask for an absurd allocation: that is C03's subject; here the
+# allocator just fails (the library then takes its out-of-memory exit, which must be clean too)
+ASAN_ENV = {"ASAN_OPTIONS": "detect_leaks=1:abort_on_error=0:exitcode=97:allocator_may_return_null=1"}
+
+
 def check(run):
     known_fragment(run)
     run.trusted += [
@@ -299,12 +304,29 @@ def check(run):
     for i in range(150 if quick else 3000):
         ops = gen_badpages(run.rng, badaddrs, goodaddrs, 18 if quick else 40)
         seqs.append(("seq %s : %s" % (badpath, " ".join(ops)), [badpath], ops))
+    # failing (and surviving) opens of corrupted files of every format: one field of a seed dump
+    # set to a bad value or the file cut at a structure boundary (the parse agent's enumerator);
+    # every corruption of a flattened file's segment headers; ELF cores whose notes are rejected
+    try:
+        bad_opens = resdumps.corrupted_opens(d, run.rng, 6 if quick else 60)
+        notes = resdumps.elf_bad_notes(d)
+    except Exception as e:                       # noqa
+        run.violation("machinery", "cannot build the corrupted dumps: %s" % e, {}, found_input=False)
+        return
+    for label, path in bad_opens + [(n, p_) for n, p_ in sorted(notes.items())] * 3:
+        pol = run.rng.choice([0, 0, 2])
+        ops = ["N0", "Y0:%d" % pol, "O0:0", "R0:1:0x0:64", "G0:0:%d" % run.rng.randrange(3),
+               "R0:1:0x1000:4096", "B0", "Z%d" % run.rng.randrange(6)]
+        if run.rng.random() < 0.3:
+            ops.insert(3, "C0:1:%d" % run.rng.randrange(2))
+        seqs.append(("seq %s : %s" % (path, " ".join(ops)), [path], ops))
+    run.count("corrupted-open-files", len(bad_opens))
     run.rng.shuffle(seqs)
     # in shards: a badly broken tree (hangs cost seconds each) is reported after the first shard
     shard = 100 if quick else 1000
     for i in range(0, len(seqs), shard):
         part = seqs[i:i + shard]
-        out, _ = core.run_impl_lines(exe, run.work, [s[0] for s in part], timeout=1700)
+        out, _ = core.run_impl_lines(exe, run.work, [s[0] for s in part], timeout=1700, env=ASAN_ENV)
         judge_seqs(run, exe, part, out)
         if len(run.violations) >= 3:
             run.count("seq-shards-skipped-after-violations", (len(seqs) - i - len(part)) // shard)
@@ -382,7 +404,8 @@ def judge_seqs(run, exe, seqs, out):
     final = set()
     for (line, files, ops), o in zip(seqs, out):
         failing = any(op[0] in "TJ" for op in ops) or \
-            any("trunc" in f or "garbage" in f or "lzo" in f or "ddbad" in f for f in files)
+            any("trunc" in f or "garbage" in f or "lzo" in f or "ddbad" in f or "/corrupt/" in f or "elfnote" in f
+                for f in files)
         run.note_case(line, failing or any(op[0] in "CGX" for op in ops))
         for op in ops:
             run.count("op-" + op[0])
@@ -404,7 +427,7 @@ def judge_seqs(run, exe, seqs, out):
         # shrink the history: still the same class of failure
         def fails(cand):
             l = "seq %s : %s" % ("|".join(files), " ".join(cand))
-            oo, _ = core.run_impl_lines(exe, run.work, [l], timeout=120)
+            oo, _ = core.run_impl_lines(exe, run.work, [l], timeout=120, env=ASAN_ENV)
             if oo[0].startswith("ok"):
                 return False
             s2 = classify(oo[0])
@@ -415,7 +438,7 @@ def judge_seqs(run, exe, seqs, out):
             return s2 == sig
         small = core.shrink_list(ops, fails, max_tests=120) if fails(ops) else ops
         l2 = "seq %s : %s" % ("|".join(files), " ".join(small))
-        oo, _ = core.run_impl_lines(exe, run.work, [l2], timeout=120)
+        oo, _ = core.run_impl_lines(exe, run.work, [l2], timeout=120, env=ASAN_ENV)
         # histories with a feature that is a recorded finding are classified by the feature
         xclones = set()         # contexts that use a clone's own dictionary
         creates = False         # an attribute-creating call was made through such a dictionary
